@@ -12,7 +12,7 @@ from ..absint import NONE, Const, Interp, Tup
 from ..astutil import Defs
 from ..cfg import cfg_of, reaching_defs
 from ..core import AnalysisError, attr_chain, cshort, kwarg, short, walk_no_nested, walk_stmts
-from ..grouping import GroupFacts
+from ..groupsx import GroupModel
 from ..joins import VARIANTS, JoinFacts
 from ..sites import Resolver, all_sites, vector_valued
 from . import grouprules as gr
@@ -228,8 +228,8 @@ def _joins(ctx) -> None:
 
 
 def _groups(ctx) -> None:
-    a = GroupFacts(ctx.prog, "aggregate")
-    w = GroupFacts(ctx.prog, "window")
+    a = GroupModel(ctx.prog, "aggregate")
+    w = GroupModel(ctx.prog, "window")
     gr.key_columns(ctx, a, "g.aggregate-window")
     gr.key_columns(ctx, w, "g.aggregate-window")
     gr.naming_kernel(ctx, a, w, "g.aggregate-window")
@@ -242,13 +242,13 @@ def _groups(ctx) -> None:
         def ob(self, rule, func, role, ok, what, node=None, message="", witness=""):
             return ctx.ob("g.aggregate-window", func, "aggregate_col-name" if "aggregate_col" in role else role, ok, what, node, message, witness)
     gr.group_value_flow(Px(), a, "x")
-    for name, b in w.blocks.items():
-        nameprobs = [p for p in b.problems if "named" in p or "uniquify" in p]
-        ne = b.name_expr
-        ok = not nameprobs and isinstance(ne, ast.Call) and short(ne.func) == "uniquify"
-        ctx.ob("g.aggregate-window", w.f, f"window:{name}", ok, f"window {name} output named uniquify(sanitize(col, '{b.suffix}'))", b.guard,
-               message=f"window({name}=...): output name `{short(ne) if ne is not None else '?'}` does not pass through uniquify / is not "
-                       f"derived from its own column" + ("; " + "; ".join(nameprobs) if nameprobs else ""))
+    for p, outs in w.builtin_outputs().items():
+        o = outs[0]
+        nf = w.name_kernel_facts(o)
+        ok = o.uniq is not None and nf is not None and nf[0] and nf[1]
+        ctx.ob("g.aggregate-window", w.f, f"window:{p}", ok, f"window {p} output named uniquify(<kernel>(own column, suffix))", o.node,
+               message=f"window({p}=...): output name `{w.sh(o.name, 70)}` does not pass through uniquify / is not "
+                       f"derived from its own column")
 
 
 def _selections(ctx) -> None:
